@@ -205,7 +205,7 @@ VALUES = [None, True, False, 0, 1, -1, 1.0, -0.0, 0.1, 2 ** 63, 2 ** 64 + 1, -(1
           {"a": {"b": [True, 1.5]}}, {"b": 1, "a": 2}, [1, 1.0, True], "null",
           # not JSON-safe
           (1, 2), [1, (2,)], {"a": (1,)}, {1: "x"}, {True: 1}, {None: 0}, {"1": "y", 1: "x"}, {(1, 2): 3}, {1, 2}, b"by",
-          [[]], [{}], {"": ""}, 1e-320, 10 ** 20, "true", [None], "None", "false", "0", 0.0, [0], [""], {"": None}, [False]] + _cyclic_values() + _shared_values() + _other_containers()
+          [[]], [{}], {"": ""}, 1e-320, 10 ** 20, "true", [None], "None", "false", "0", 0.0, [0], [""], {"": None}, [False], "\ufeffinstalled", "\ufeff", "x\ufeff", "\ufffe", " x ", "x\n"] + _cyclic_values() + _shared_values() + _other_containers()
 PREFIXES = ["", "pre", "p:q", "p", "net", "p:q:r", "net:", ":x", "a::b", ":"]
 
 
@@ -245,7 +245,8 @@ SPECIAL_URIS = [("/upd/a%3Fx", "a?x", "a"), ("/upd/a%3Fx?y=1", "a?x", "a"), ("/u
                 ("/upd/a%23b", "a#b", "a"), ("/upd/a%25b", "a%b", "a"), ("/upd/a%252Fb", "a%2Fb", "a/b"), ("/upd/a%2Fb", "a/b", "a"),
                 ("/upd/a+b", "a+b", "a b"), ("/upd/a%20b?q=a%3Fb", "a b", "a"), ("/upd/%C3%A9%3F", "\u00e9?", "\u00e9"),
                 ("/upd/a?x%3Fy", "a", "a?y"), ("/upd/a%3F", "a?", "a"), ("/upd/%C3%A9", "\u00e9", "e")]
-BODIES = [b"0", b'""', b"null", b"false", b"[]", b"{}", b"0.0", b'"\xed\xa0\x80"', b'{"a": [1, 2.5, null]}', b'"x"', b"1e999", b"NaN", b"[1,", b"\xff", b"", b'{"a":1,"a":2}', b"12345678901234567890123",
+BODIES = [b"\xef\xbb\xbfinstalled", b"\xef\xbb\xbf", b"a\xef\xbb\xbfb", b'\xef\xbb\xbf"x"', b'"\xef\xbb\xbfx"', b"\xef\xbf\xbe", b"\x00",
+          b" x ", b"x\n", b"\r\n", b"0", b'""', b"null", b"false", b"[]", b"{}", b"0.0", b'"\xed\xa0\x80"', b'{"a": [1, 2.5, null]}', b'"x"', b"1e999", b"NaN", b"[1,", b"\xff", b"", b'{"a":1,"a":2}', b"12345678901234567890123",
           b"hello", b"\xc3\xa9", b"\xff\xfe", b"true", b" 1 ", b'"\\ud800"', b"1.0", b"-0.0", b"[1, 2] x"]
 CLENS = ["=", "=", "=", None, "x", "0", "3", "-1", " 5 ", "1_0", "99"]
 
@@ -261,7 +262,7 @@ def _nest(depth, leaf, as_dict=False):
 LIMIT_VALUES = ["v" * 255, "v" * 256, "v" * 4096, _nest(16, 0), _nest(17, 0), _nest(64, None), _nest(17, "", True),
                 _nest(64, [], True), "\x01\x1f\x7f", "\t\n\r", 2 ** 1000, -(2 ** 1000), 1e-310, 1.7976931348623157e308,
                 list(range(300)), {str(i): i for i in range(200)}]
-LIMIT_IDS = ["s" * 255, "s" * 256, "s" * 4096, "\x01\x7f", " ", "\t", "a\nb"]
+LIMIT_IDS = ["\ufeffa", "\ufeff", "s" * 255, "s" * 256, "s" * 4096, "\x01\x7f", " ", "\t", "a\nb"]
 
 
 class Httpd:
@@ -580,6 +581,29 @@ class C15(Check):
                         steps.insert(0, ("store", rng.randrange(3), "set", rng.choice(["b", "c"]), h["key"], h["value"]))
                     case["steps"] = steps
                     yield case
+        # directed: body-reading handlers with bodies whose first/last characters a codec or a parser might drop
+        #     (BOM / U+FEFF, U+FFFE, NUL, blanks, line ends); the value is read back and looked up through stores
+        special = [b"\xef\xbb\xbfinstalled", b"\xef\xbb\xbf", b"a\xef\xbb\xbfb", b'\xef\xbb\xbf"x"', b'"\xef\xbb\xbfx"', b"\xef\xbf\xbe",
+                   b"\x00", b" x ", b"x\n", b"\r\n", b"\xef\xbb\xbf\xef\xbb\xbf", b'" x"', b"\t1"]
+        for h in hp:
+            if "request_body" not in h["action"]:
+                continue
+            for bd in special:
+                if tier == "quick" and rng.random() < 0.4:
+                    continue
+                case = {"stores": [True, True, False], "sources": [("", True), ("pre", True)], "handlers": [h, rng.choice(hp)]}
+                s = rng.choice(["a", "b"])
+                try:
+                    txt = bd.decode()
+                except ValueError:
+                    txt = ""
+                steps = [("handler", 0, {"method": "POST", "uri": "/upd/" + s, "ip": "192.0.2.1", "clen": "=", "body": bd,
+                                         "via": rng.random() < 0.4}),
+                         ("store", rng.randrange(3), "get", s, h["key"]),
+                         ("store", rng.randrange(3), "find", h["key"], txt),
+                         ("store", rng.randrange(3), "find", h["key"], txt.lstrip("\ufeff").strip())]
+                case["steps"] = steps
+                yield case
         # directed: every handler action addressed to a system id that needs percent-encoding; the addressed system
         # and its look-alike both hold data before the request, the snapshots show which rows changed
         for rep in range(1 if tier == "quick" else 6):
